@@ -78,7 +78,7 @@ pub fn judge(w: &World) -> Judged {
 pub fn run(ctx: &mut Ctx) {
     let bound = if ctx.tier.thorough() { 3 } else { 2 };
     let ws = worlds(bound);
-    ctx.rule = "slot world (types with enum / subrange / struct / array / alias slots, Callee, Fn, a host POU with variable, constant, external, function-block invocation and use-site slots, Main, a configuration with global / task slots): every assignment of the slots with at most `deviation_bound` costly deviations (valid options and planted faults alike); the use site (31 statement/expression positions), host kind and host position are cost-0 and fully expanded; distinct = distinct world text".into();
+    ctx.rule = "slot world (types with enum / subrange / struct / array / alias slots, Callee, Fn, a host POU with variable, constant, external, function-block invocation and use-site slots, Main, a configuration with global / task slots): every assignment of the slots with at most `deviation_bound` costly deviations (valid options and planted faults alike); the use site (31 statement/expression positions), host kind and host position are cost-0 and fully expanded; plus each rule at scale (1 to 1000 elements, valid and with the fault at the first, middle and last element); distinct = distinct world text".into();
     ctx.bounds.insert("deviation_bound".into(), json!(bound));
     ctx.bounds.insert("use_sites".into(), json!(world::SITES.len()));
     ctx.assumptions.push("the reference model decides what each world violates from the slot values (documented Passes/Fails shapes of each rule); P9999-only answers are counted as 'declared unsupported', never as pass or fail".into());
@@ -151,9 +151,137 @@ pub fn run(ctx: &mut Ctx) {
         }
     }
     ctx.extra.insert("cli_runs".into(), json!(ctx.traces));
+    scale_family(ctx);
+}
+
+/// One rule at scale: a program with n elements of the kind the rule looks at, valid or with the rule's
+/// fault planted at element `k`. Returns (text, expected code or None for valid).
+pub fn scale_case(rule: &str, n: usize, k: Option<usize>) -> (String, Option<&'static str>) {
+    let j = |f: &dyn Fn(usize) -> String, sep: &str| (0..n).map(f).collect::<Vec<_>>().join(sep);
+    match rule {
+        "P0003" => {
+            let mut elems = j(&|i| format!("e{} : INT ;", i), " ");
+            if let Some(k) = k {
+                elems.push_str(&format!(" e{} : BOOL ;", k));
+            }
+            (format!("TYPE S : STRUCT {} END_STRUCT ; END_TYPE", elems), k.map(|_| "P0003"))
+        }
+        "P0005" => {
+            let mut vals = j(&|i| format!("V{}", i), " , ");
+            if let Some(k) = k {
+                vals.push_str(&format!(" , V{}", k));
+            }
+            (format!("TYPE E : ( {} ) := V0 ; END_TYPE", vals), k.map(|_| "P0005"))
+        }
+        "P0004" => (format!("TYPE {} END_TYPE", j(&|i| if Some(i) == k { format!("R{} : INT ( 10 .. 1 ) ;", i) } else { format!("R{} : INT ( 1 .. 10 ) ;", i) }, " ")), k.map(|_| "P0004")),
+        "P0015" => (
+            format!(
+                "FUNCTION_BLOCK F VAR {} END_VAR {} END_FUNCTION_BLOCK",
+                j(&|i| format!("v{} : INT ;", i), " "),
+                j(&|i| if Some(i) == k { format!("v{} := zz{} ;", i, i) } else { format!("v{} := v{} + 1 ;", i, (i + 1) % n) }, " ")
+            ),
+            k.map(|_| "P0015"),
+        ),
+        "P0014" => (
+            format!(
+                "TYPE E : ( {} ) := V0 ; END_TYPE FUNCTION_BLOCK F VAR {} END_VAR END_FUNCTION_BLOCK",
+                j(&|i| format!("V{}", i), " , "),
+                j(&|i| if Some(i) == k { format!("x{} : E := Nope{} ;", i, i) } else { format!("x{} : E := V{} ;", i, i) }, " ")
+            ),
+            k.map(|_| "P0014"),
+        ),
+        "P0007" => (
+            format!(
+                "FUNCTION_BLOCK Callee VAR_INPUT {} END_VAR END_FUNCTION_BLOCK FUNCTION_BLOCK F VAR inst : Callee ; END_VAR inst ( {} ) ; END_FUNCTION_BLOCK",
+                j(&|i| format!("a{} : INT ;", i), " "),
+                j(&|i| if Some(i) == k { format!("nope{} := {}", i, i) } else { format!("a{} := {}", i, i) }, " , ")
+            ),
+            k.map(|_| "P0007"),
+        ),
+        "P0016" => (format!("FUNCTION_BLOCK F VAR CONSTANT {} END_VAR END_FUNCTION_BLOCK", j(&|i| if Some(i) == k { format!("c{} : INT ;", i) } else { format!("c{} : INT := {} ;", i, i) }, " ")), k.map(|_| "P0016")),
+        "P0022" => (format!("FUNCTION_BLOCK F VAR {} END_VAR END_FUNCTION_BLOCK", j(&|i| if Some(i) == k { format!("x{} : Missing{} ;", i, i) } else { format!("x{} : INT ;", i) }, " ")), k.map(|_| "P0022")),
+        "P0011" => (
+            format!(
+                "PROGRAM Main VAR n : INT ; END_VAR n := 1 ; END_PROGRAM CONFIGURATION c RESOURCE r ON PLC {} {} END_RESOURCE END_CONFIGURATION",
+                j(&|i| format!("TASK t{} ( PRIORITY := 1 ) ;", i), " "),
+                j(&|i| if Some(i) == k { format!("PROGRAM p{} WITH nope{} : Main ;", i, i) } else { format!("PROGRAM p{} WITH t{} : Main ;", i, i) }, " ")
+            ),
+            k.map(|_| "P0011"),
+        ),
+        "P0021" => (
+            format!(
+                "FUNCTION_BLOCK Callee VAR_INPUT a : INT ; END_VAR END_FUNCTION_BLOCK FUNCTION_BLOCK F VAR {} END_VAR {} END_FUNCTION_BLOCK",
+                j(&|i| format!("i{} : Callee ;", i), " "),
+                j(&|i| if Some(i) == k { format!("nope{} ( a := 1 ) ;", i) } else { format!("i{} ( a := {} ) ;", i, i) }, " ")
+            ),
+            k.map(|_| "P0021"),
+        ),
+        _ => unreachable!(),
+    }
+}
+
+pub const SCALE_RULES: [&str; 10] = ["P0003", "P0005", "P0004", "P0015", "P0014", "P0007", "P0016", "P0022", "P0011", "P0021"];
+pub const SCALE_SIZES: [usize; 17] = [1, 2, 3, 8, 9, 16, 17, 32, 33, 64, 65, 128, 129, 255, 256, 257, 1000];
+
+fn scale_family(ctx: &mut Ctx) {
+    let mut jobs: Vec<(&'static str, usize, Option<usize>)> = vec![];
+    for r in SCALE_RULES {
+        for &n in SCALE_SIZES.iter() {
+            jobs.push((r, n, None));
+            let mut ks = vec![0, n / 2, n - 1];
+            ks.dedup();
+            for k in ks {
+                jobs.push((r, n, Some(k)));
+            }
+        }
+    }
+    let res: Vec<(BTreeSet<String>, Option<&'static str>)> = jobs
+        .par_iter()
+        .map(|(r, n, k)| {
+            let (text, expect) = scale_case(r, *n, *k);
+            let (verdict, _) = front::check_texts(&[&text]);
+            (verdict.codes(), expect)
+        })
+        .collect();
+    for ((r, n, k), (codes, expect)) in jobs.iter().zip(res.iter()) {
+        ctx.evaluations += 1;
+        ctx.transitions += 1;
+        ctx.distinct(&format!("scale|{}|{}|{:?}", r, n, k));
+        let pos = match k {
+            None => "valid",
+            Some(0) => "fault-at-first",
+            Some(x) if *x == n - 1 => "fault-at-last",
+            Some(_) => "fault-in-the-middle",
+        };
+        let ok = match expect {
+            None => codes.is_empty() || codes.iter().all(|c| c == "P9999"),
+            Some(c) => codes.contains(*c) || codes.iter().all(|c| c == "P9999") && !codes.is_empty(),
+        };
+        let unsupported = !codes.is_empty() && codes.iter().all(|c| c == "P9999");
+        ctx.outcome(if unsupported { "scale: declared unsupported (P9999)" } else if !ok { "scale: disagrees" } else if expect.is_some() { "scale: fault diagnosed with its code" } else { "scale: valid program accepted" });
+        if !ok {
+            ctx.fail(
+                &format!("scale/{}/{}#{}", r, pos, if codes.is_empty() { "OK".to_string() } else { codes.iter().cloned().collect::<Vec<_>>().join("+") }),
+                &format!("{} elements, {}: expected {}, reported {:?}", n, pos, expect.unwrap_or("no diagnostic"), codes),
+                json!({"mode":"scale","rule":r,"n":n,"k":k}),
+            );
+        }
+    }
+    ctx.bounds.insert("scale_family".into(), json!(format!("{} rules x sizes {:?} x {{valid, fault at first / middle / last element}}", SCALE_RULES.len(), SCALE_SIZES)));
 }
 
 pub fn replay(case: &Value) -> Result<String, String> {
+    if case["mode"] == json!("scale") {
+        let r = SCALE_RULES.iter().find(|x| Some(**x) == case["rule"].as_str()).ok_or("rule")?;
+        let (text, expect) = scale_case(r, case["n"].as_u64().ok_or("n")? as usize, case["k"].as_u64().map(|x| x as usize));
+        let (verdict, _) = front::check_texts(&[&text]);
+        let codes = verdict.codes();
+        let ok = match expect {
+            None => codes.is_empty(),
+            Some(c) => codes.contains(c),
+        };
+        return if ok { Ok(format!("agrees: {:?}", codes)) } else { Err(format!("expected {:?}, reported {:?}", expect, codes)) };
+    }
     let labels: Vec<String> = case["labels"].as_array().ok_or("labels")?.iter().map(|x| x.as_str().unwrap_or("").to_string()).collect();
     let ws = worlds(3);
     let w = ws.iter().find(|w| w.labels == labels).ok_or("world is not in the enumerated space any more")?;
